@@ -230,3 +230,11 @@ def spline_replay(prop, result, workdir, seed):
     if key not in _SPLINE_REPLAY_CACHE:
         _SPLINE_REPLAY_CACHE[key] = replay_native('replay_spline', [prop, max(1, int(seed))], workdir, timeout=900)
     return _SPLINE_REPLAY_CACHE[key]
+
+
+def optimizer_replay(prop, result, workdir, seed):
+    """optimizer family: seeded battery on the real headers (native/replay_opt.cpp), one run per check run"""
+    key = ('opt', prop, seed)
+    if key not in _SPLINE_REPLAY_CACHE:
+        _SPLINE_REPLAY_CACHE[key] = replay_native('replay_opt', [prop, max(1, int(seed))], workdir, timeout=900)
+    return _SPLINE_REPLAY_CACHE[key]
